@@ -573,6 +573,11 @@ def cmp_93(r1, r2, encoding):
         return c
     if r1.is_dir != r2.is_dir:
         return 0    # a directory identifier has no version: 9.3 does not order it against a file of the same name
+    # an identifier without SEPARATOR 2 (not a conforming File Identifier, but one the library lets through) has no version
+    # for 9.3 to order by
+    semi = b'\x00;' if encoding == 'joliet' else b';'
+    if semi not in split_units(r1.ident, encoding) or semi not in split_units(r2.ident, encoding):
+        return 0
     # version: descending, padded on the left with '0'
     va = int(b''.join(a[2]).replace(b'\x00', b'') or b'0') if _digits(a[2]) else 0
     vb = int(b''.join(b[2]).replace(b'\x00', b'') or b'0') if _digits(b[2]) else 0
